@@ -42,6 +42,10 @@ SKIP_SAMPLES_B = ('objectives.TelescopeObjective48Inch',)     # F16: cannot be r
 def build_setup(setup):
     """setup = {'sample'|'desc', 'vig': [[vx,vy]..], 'coat': [[frac,T,R]..], 'pol': name, 'fresnel': bool}"""
     o = lensgen.build_case(setup)
+    if setup.get('forder') and len(o.fields.fields) > 1:      # a sample lens whose fields were added in another order
+        fs = o.fields.fields
+        o.fields.fields = [fs[i % len(fs)] for i in setup['forder'][:len(fs)]] \
+            if sorted(i % len(fs) for i in setup['forder'][:len(fs)]) == list(range(len(fs))) else fs[::-1]
     for k, f in enumerate(o.fields.fields):
         if k < len(setup.get('vig', [])):
             f.vx, f.vy = setup['vig'][k]
@@ -62,6 +66,8 @@ def gen_setup(rng, samples, plain=False, nr_tol=False):
     """plain: only what Model/Real.lean covers (no polarization, no Chebyshev/polynomial)"""
     if rng.random() < 0.4:
         s = {'sample': rng.choice(samples)}
+        if rng.random() < 0.3:
+            s['forder'] = rng.choice([[1, 0, 2], [2, 1, 0], [0, 2, 1], [2, 0, 1], [1, 2, 0]])
         if rng.random() < 0.25:
             s['coat'] = [[rng.random(), dyadic(rng, 0.5, 1, 6), dyadic(rng, 0, 0.25, 6)] for _ in range(rng.randint(1, 3))]
     else:
@@ -77,6 +83,8 @@ def gen_setup(rng, samples, plain=False, nr_tol=False):
         if len(d['fields']) == 1 and rng.random() < 0.6:     # several field points, so that vignetting interpolates
             y = d['fields'][0][0]
             d['fields'] = [[0.0], [y * 0.5], [y]]
+            if rng.random() < 0.5:      # entered out of order: no non-editing call may reorder the lens's field list
+                rng.shuffle(d['fields'])
         s = {'desc': d}
     if rng.random() < 0.5:
         s['vig'] = [[dyadic(rng, 0, 0.4, 4) if rng.random() < 0.8 else 0.0,
